@@ -395,9 +395,6 @@ impl Check for C20Check {
             Tier::Thorough => 300_000,
         }
     }
-    fn watchdog_s(&self, _tier: Tier) -> u64 {
-        60
-    }
     fn generate(&self, seed: u64, index: u64, _tier: Tier) -> Value {
         let mut r = Rng::new(seed);
         let nb = match r.below(6) {
@@ -615,6 +612,17 @@ impl Check for C20Check {
                     hash_seed: Some(lay.hash_seed),
                     real_rayon: true,
                     io_seed: lay.io_seed,
+                    stale_output: match (lay.argv_seed >> 13) % 8 {
+                        0 | 1 => {
+                            stats.fault("output_path_holds_longer_earlier_output");
+                            Some(crate::procsim::stale_csv("board,channel,leading_edge,chronobox_time", "cb01,{k},true,1.5", 5000))
+                        }
+                        2 => {
+                            stats.fault("output_path_holds_shorter_earlier_output");
+                            Some(crate::procsim::stale_csv("board,channel,leading_edge,chronobox_time", "cb01,{k},true,1.5", 0))
+                        }
+                        _ => None,
+                    },
                     io_hard: lay.io_hard.map(|(w, n)| {
                         if w {
                             (true, n)
